@@ -445,6 +445,7 @@ type query struct {
 	name      nameReq
 	cur       time.Time // zero: the code reads the clock
 	leaf      *hcert
+	live      *certs.Store // when set: the long-lived Store (built from `store`) that earlier queries of the same history also used
 }
 
 func mkStore(cs []*hcert) certs.Store {
@@ -495,6 +496,9 @@ func runVerify(class string, q query) (accepted bool) {
 		opts.PresentedIntermediate = q.presented.c
 	}
 	st := mkStore(q.store)
+	if q.live != nil {
+		st = *q.live
+	}
 	clock := time.Now()
 	now := q.cur
 	if now.IsZero() {
@@ -1820,6 +1824,64 @@ func testdataChain(r *hv.Rand) []*hcert {
 	return out
 }
 
+// storeHistories: ONE long-lived Store answers a whole sequence of queries. Verification must be a
+// function of what was ADDED to the store and of the query, never of earlier queries: a verifier that
+// remembers what peers presented lets a peer plant a trust anchor (or a chain-building certificate)
+// with a query that is itself rejected. Every query of the history is judged (oracle and model)
+// against the certificates that were added, i.e. as if it were the first.
+func storeHistories(r *hv.Rand, class string, all []*hcert, rounds int) {
+	roots := ofType(all, 3)
+	if len(roots) < 2 {
+		return
+	}
+	for k := 0; k < rounds; k++ {
+		out := roots[k%len(roots)] // the hierarchy that is NOT trusted in this round
+		var trusted []*hcert
+		for _, h := range all {
+			if h.typ == 3 && h != out {
+				trusted = append(trusted, h)
+			}
+		}
+		for _, h := range all {
+			if h.typ == 2 && r.Chance(25) {
+				trusted = append(trusted, h) // stored chain-building certificates carry no trust
+			}
+		}
+		st := mkStore(trusted)
+		run := func(leaf, pres *hcert) {
+			im := pres
+			if im == nil {
+				im = byFP(all, leaf.parent)
+			}
+			var root *hcert
+			if im != nil {
+				root = byFP(all, im.parent)
+			}
+			runVerify(class, query{store: trusted, live: &st, presented: pres, name: nameReq{zero: true}, cur: commonTime(leaf, im, root), leaf: leaf})
+		}
+		// 1. every certificate of the forest (any type) handed over in the presented slot by a target that names it
+		for _, pres := range all {
+			for _, leaf := range all {
+				if leaf.parent == pres.fp {
+					run(leaf, pres)
+				}
+			}
+		}
+		// 2. then every certificate as a target, with its named parent presented and with nothing presented
+		for _, leaf := range all {
+			run(leaf, byFP(all, leaf.parent))
+			run(leaf, nil)
+		}
+		// 3. random pairs, then step 2 once more for the leaves
+		for j := 0; j < 12; j++ {
+			run(hv.Pick(r, all), hv.Pick(r, all))
+		}
+		for _, leaf := range ofType(all, 1) {
+			run(leaf, nil)
+		}
+	}
+}
+
 func main() {
 	defer hv.Flush()
 	r := hv.NewRand(hv.Seed())
@@ -1842,6 +1904,7 @@ func main() {
 		f := synthForest(r, fmt.Sprintf("v%d.", i), false)
 		all := hs(f)
 		sweepForest(r, "valid-forest", all, hv.Scale(3, 10), 100)
+		storeHistories(r, "store-history", all, hv.Scale(2, 6))
 		if i == 0 {
 			inMemoryMutations(r, all)
 			bitFlips(r, all, hv.Scale(17, 1))
@@ -1861,6 +1924,7 @@ func main() {
 		f := synthForest(r, fmt.Sprintf("w%d.", i), true)
 		all := hs(f)
 		sweepForest(r, "wild-forest", all, hv.Scale(2, 8), hv.Scale(36, 100))
+		storeHistories(r, "store-history-wild", all, hv.Scale(1, 4))
 		if i < hv.Scale(1, 6) {
 			for _, a := range all {
 				for _, b := range all {
